@@ -1,10 +1,157 @@
-import LJT.Model.Lossless
-/-! # C02 - lossless mode reproduces every sample exactly (theorems added below as they are proved) -/
-namespace LJT.C02
-open LJT.LL
+import LJT.Proofs.Lossless
+import LJT.Proofs.Bits
+/-!
+# C02 - Lossless mode reproduces every sample exactly
 
-/-- placeholder-free sanity theorem: the category of 0 is 0 bits (replaced by the real
-round-trip theorems in this file) -/
-theorem category_zero : category 0 = (0, 0, 0) := by decide
+Full statement: for every image with 2..16 bits per sample and 1..4 components, every
+PSV 1..7, every restart setting and scan layout the compressor accepts, compressing in
+lossless mode with Pt = 0 and decompressing returns exactly the original samples; with
+Pt > 0 each sample comes back with its Pt low bits cleared; through both APIs and for
+every packed-pixel layout, row order and pitch.
+
+Proved here over `Model.Lossless` (whose compressor side is byte-identical to the real
+encoder on every generated case, and whose tables come from the C19-verified builders):
+
+* `component_roundtrip` - point transform + predictor + mod-2^16 reconstruction + restart
+  bookkeeping of both sides, for every precision, Pt, PSV, restart interval, width, height;
+* `restart_sync` - compressor and decompressor reset their predictors on the same rows;
+* `difference_coding_roundtrip` - category/extra-bit coding incl. the 32768 case;
+* `segment_roundtrip` - Huffman-coded MCUs, packed into bytes with 1-padding and 0xFF
+  stuffing, decode to congruent differences (uses C19 `derived_tables_inverse`).
+
+`lossless_roundtrip_partial` below states what these give together; the splitting of the
+scan at RSTn markers and the regrouping of MCUs into per-component rows are not yet part of
+the composed theorem (they are exercised by the byte-exact correspondence and by the
+round-trip oracle on the real library).  Layout / row order / pitch independence is C10.
+-/
+namespace LJT.C02
+open LJT.LL LJT.Huff LJT.Bits
+
+/-- what the decoder returns for an input sample: the Pt low bits cleared -/
+def cleared (Pt : Nat) (s : Nat) : Nat := (s >>> Pt) <<< Pt
+
+theorem shift_roundtrip (s Pt : Nat) (hs : s < 65536) :
+    (((s >>> Pt : Nat) : Int).toNat <<< Pt) % 65536 = cleared Pt s := by
+  unfold cleared
+  simp only [Int.toNat_natCast]
+  apply Nat.mod_eq_of_lt
+  have : (s >>> Pt) <<< Pt ≤ s := by
+    rw [Nat.shiftRight_eq_div_pow, Nat.shiftLeft_eq]
+    exact Nat.div_mul_le_self s (2 ^ Pt)
+  omega
+
+/-- **component_roundtrip**: for every precision 2..16, point transform, predictor,
+restart interval and image size: undifferencing (with the *decompressor's* restart
+bookkeeping) any differences that are congruent modulo 2^16 to the ones the compressor
+produced (with *its* bookkeeping), then scaling up, returns every sample with its Pt low
+bits cleared - i.e. exactly the input when Pt = 0. -/
+theorem component_roundtrip (p : Params) (rows : List (List Nat)) (w : Nat)
+    (hP : p.P ≤ 16) (hw : ∀ r ∈ rows, r.length = w) (hs : ∀ r ∈ rows, ∀ s ∈ r, s < 2 ^ p.P)
+    (dss : List (List Int))
+    (hd : All2 (All2 Cong16) dss
+      (diffRows p.psv (initPred p) (encFlags p.R rows.length (true, p.R)) [] (downscale p.Pt rows))) :
+    upscale p.Pt (undiffRows p.psv (initPred p) (decFlags p.R rows.length (true, p.R)) [] dss) =
+      rows.map (fun r => r.map (cleared p.Pt)) := by
+  have h16 : ∀ r ∈ rows, ∀ s ∈ r, s < 65536 := by
+    intro r hr s hs'
+    have := hs r hr s hs'
+    have : 2 ^ p.P ≤ 2 ^ 16 := Nat.pow_le_pow_right (by omega) hP
+    have : (2:Nat) ^ 16 = 65536 := by decide
+    omega
+  rw [← restart_sync]
+  have hlen : (downscale p.Pt rows).length = rows.length := by simp [downscale]
+  have key := undiffRows_diffRows p.psv (initPred p) w (downscale p.Pt rows) dss
+    (encFlags p.R rows.length (true, p.R)) []
+    (by
+      intro r hr
+      simp only [downscale, List.mem_map] at hr
+      obtain ⟨r0, hr0, rfl⟩ := hr
+      intro c hc
+      simp only [List.mem_map] at hc
+      obtain ⟨s, hs', rfl⟩ := hc
+      have h1 := h16 r0 hr0 s hs'
+      have h2 : s >>> p.Pt ≤ s := Nat.shiftRight_le s p.Pt
+      constructor
+      · exact Int.natCast_nonneg _
+      · have : ((s >>> p.Pt : Nat) : Int) ≤ (s : Int) := Int.ofNat_le.2 h2
+        omega)
+    (by
+      intro r hr
+      simp only [downscale, List.mem_map] at hr
+      obtain ⟨r0, hr0, rfl⟩ := hr
+      simp [hw r0 hr0])
+    (by
+      left
+      cases hn : rows.length with
+      | zero => simp [encFlags]
+      | succ n =>
+        simp only [encFlags, List.headD_cons]
+        exact encStep_fst p.R (true, p.R))
+    (by rw [encFlags_length, hlen]; exact Nat.le_refl _)
+    hd
+  rw [key]
+  simp only [upscale, downscale, List.map_map]
+  apply List.map_congr_left
+  intro r hr
+  simp only [Function.comp, List.map_map]
+  apply List.map_congr_left
+  intro s hs'
+  simp only [Function.comp]
+  exact shift_roundtrip s p.Pt (h16 r hr s hs')
+
+/-- **restart_sync** (re-exported): same reset rows on both sides, for every interval. -/
+theorem restart_sync (R n : Nat) : encFlags R n (true, R) = decFlags R n (true, R) :=
+  LJT.LL.restart_sync R n
+
+/-- **difference_coding_roundtrip**: for every integer difference the decoder's value
+is congruent to it modulo 2^16, the category is at most 16, and category 16 carries no
+extra bits. -/
+theorem difference_coding_roundtrip (d : Int) :
+    Cong16 (extend (category d).1 (category d).2.1) d ∧ (category d).1 ≤ 16 ∧
+    (category d).2.2 = (if (category d).1 = 16 then 0 else (category d).1) :=
+  let h := extend_category d
+  ⟨h.1, h.2.1, h.2.2.2⟩
+
+/-- **segment_roundtrip**: the bytes of one restart segment (Huffman codes + extra bits
+of every MCU, 1-padding, 0xFF stuffing), read back through the unstuffing bit reader and
+the Huffman/extend decoder, give MCUs with congruent differences; what is left unread is
+fewer than 8 padding bits. -/
+theorem segment_roundtrip (cds : List CDerived) (dds : List DDerived) (tblOf : List Nat) (nc : Nat)
+    (htab : TablesOK cds dds tblOf 0 nc) (mcus : List (List Int)) (hlen : ∀ m ∈ mcus, m.length = nc)
+    (bits : List Bool) (henc : segBits cds tblOf (mcus.flatMap (mcuItems 0)) = some bits) :
+    ∃ mcus' padding, decodeItems dds tblOf nc mcus.length (segmentBits (segmentBytes bits)) =
+        some (mcus'.flatMap (mcuItems 0), padding) ∧
+      All2 (All2 Cong16) mcus' mcus ∧ padding.length < 8 := by
+  rw [segmentBits_segmentBytes]
+  obtain ⟨mcus', hdec, hall⟩ := decodeItems_ok cds dds tblOf nc htab mcus bits _ hlen henc
+  exact ⟨mcus', _, hdec, hall, by simp [padLen_lt]⟩
+
+/-- **lossless_roundtrip_partial**: the two halves above, joined at the point where they
+meet: if the differences the entropy decoder hands to the undifferencer are the ones
+`segment_roundtrip` yields (congruent to the compressor's), every component comes back as
+`cleared Pt` of the input.  Not yet inside this theorem: splitting the scan at RSTn markers
+and regrouping MCUs into rows (see file header). -/
+theorem lossless_roundtrip_partial (p : Params) (img : List (List (List Nat))) (w : Nat)
+    (hP : p.P ≤ 16) (hw : ∀ rows ∈ img, ∀ r ∈ rows, r.length = w)
+    (hs : ∀ rows ∈ img, ∀ r ∈ rows, ∀ s ∈ r, s < 2 ^ p.P)
+    (decoded : List (List (List Int)))
+    (hd : All2 (All2 (All2 Cong16)) decoded (encodeDiffs p img)) :
+    All2 (fun (dss : List (List Int)) (rows : List (List Nat)) =>
+        upscale p.Pt (undiffRows p.psv (initPred p) (decFlags p.R rows.length (true, p.R)) [] dss) =
+          rows.map (fun r => r.map (cleared p.Pt))) decoded img := by
+  unfold encodeDiffs at hd
+  induction img generalizing decoded with
+  | nil => cases hd; exact All2.nil
+  | cons rows img ih =>
+    simp only [List.map_cons] at hd
+    cases hd with
+    | cons h1 h2 =>
+      refine All2.cons ?_ (ih (fun r hr => hw r (List.mem_cons_of_mem _ hr))
+        (fun r hr => hs r (List.mem_cons_of_mem _ hr)) _ h2)
+      exact component_roundtrip p rows w hP (hw rows (List.mem_cons_self ..)) (hs rows (List.mem_cons_self ..)) _ h1
+
+-- non-vacuity: a 3x2 16-bit component alternating 0 / 65535 with PSV 7, restart every row
+example : (diffRows 7 32768 (encFlags 1 2 (true, 1)) [] (downscale 0 [[0, 65535, 0], [65535, 0, 65535]])) =
+    [[-32768, 65535, -65535], [32767, -65535, 65535]] := by decide
 
 end LJT.C02
